@@ -30,6 +30,36 @@ def _bound(n):
     return st.one_of(st.none(), st.integers(-n - 3, n + 3))
 
 
+# the coordinates of a dimension need not increase: decreasing grids (energies as Tripoli-4 prints
+# them), a repeated edge (bin of zero width), a grid that wraps around (angles)
+_GRID = st.sampled_from(['inc', 'inc', 'inc', 'dec', 'dup', 'wrap'])
+# names of the dimensions: ordinary, or with an empty / blank / numeric-looking name
+_KEYS = st.sampled_from(['plain', 'plain', 'plain', 'empty-first', 'empty-last', 'odd'])
+
+
+def _key_names(ndim, how):
+    names = [f'd{dim}' for dim in range(ndim)]
+    if how == 'empty-first':
+        names[0] = ''
+    elif how == 'empty-last':
+        names[-1] = ''
+    elif how == 'odd':
+        names = [[' ', '0', 'None', 'e'][dim] for dim in range(ndim)]
+    return names
+
+
+def _regrid(arr, how):
+    if how == 'dec':
+        return arr[::-1].copy()
+    if how == 'dup' and arr.size >= 2:
+        arr = arr.copy()
+        arr[1] = arr[0]
+        return arr
+    if how == 'wrap' and arr.size >= 2:
+        return np.roll(arr, 1)
+    return arr
+
+
 @st.composite
 def _slice_case(draw):
     shape = draw(st.lists(st.integers(0, 6), min_size=1, max_size=4))
@@ -40,7 +70,8 @@ def _slice_case(draw):
               for n in shape]
     astuple = True if ndim > 1 else draw(st.booleans())
     return {'op': 'slice', 'shape': shape, 'kinds': kinds, 'slices': slices,
-            'astuple': astuple, 'layout': draw(st.sampled_from(['C', 'C', 'F']))}
+            'astuple': astuple, 'layout': draw(st.sampled_from(['C', 'C', 'F'])),
+            'grids': [draw(_GRID) for _ in range(ndim)], 'keys': draw(_KEYS)}
 
 
 @st.composite
@@ -50,7 +81,8 @@ def _squeeze_case(draw):
     has_bins = draw(st.booleans())
     kinds = [draw(st.sampled_from('ec')) for _ in range(ndim)] if has_bins else None
     return {'op': 'squeeze', 'shape': shape, 'kinds': kinds,
-            'layout': draw(st.sampled_from(['C', 'C', 'F']))}
+            'layout': draw(st.sampled_from(['C', 'C', 'F'])),
+            'grids': [draw(_GRID) for _ in range(ndim)], 'keys': draw(_KEYS)}
 
 
 def strategy(tier):
@@ -76,6 +108,11 @@ def _build(case):
     if case.get('layout') == 'F' and len(shape) >= 2:     # same numbers, Fortran memory order
         value, error = np.asfortranarray(value), np.asfortranarray(error)
     bins = dsutil.make_bins(shape, case['kinds']) if case['kinds'] else None
+    if bins is not None and (case.get('grids') or case.get('keys')):
+        names = _key_names(len(shape), case.get('keys', 'plain'))
+        grids = case.get('grids') or ['inc'] * len(shape)
+        bins = OrderedDict((names[dim], _regrid(arr, grids[dim]))
+                           for dim, arr in enumerate(bins.values()))
     return Dataset(value, error, bins=bins, name='ds', what='w'), value, error, bins
 
 
@@ -167,8 +204,8 @@ def run_case(case):
             out.failures.append(Failure('squeeze_error', 'C09/squeeze_error', 'errors differ'))
         for why in dsutil.wellformed(res):
             out.failures.append(Failure('wellformed', 'C09/squeeze_wellformed', why))
-        exp = OrderedDict((f'd{d}', bins[f'd{d}']) for d in keep) if bins is not None \
-            else OrderedDict()
+        exp = OrderedDict(item for d, item in enumerate(bins.items()) if d in keep) \
+            if bins is not None else OrderedDict()
         if list(res.bins) != list(exp) or not all(
                 dsutil.same_array(res.bins[k], exp[k]) for k in exp):
             out.failures.append(Failure('squeeze_bins', f'C09/squeeze_bins/{feat}',
